@@ -78,7 +78,19 @@ STD_ADVERSARY = [
     'pcall(io.close) pcall(io.close, io.stderr) pcall(function() io.stdout:close() end) pcall(function() io.output():close() end) pcall(function() io.input():close() end)',
     'local so, se = io.stdout, io.stderr io.output(se) io.write("z") pcall(io.close) io.output(so) setmetatable({}, {__gc = function() pcall(io.close, se) end})',
 ]
-VICTIM += META_VICTIM + STD_VICTIM
+# tracebacks / stack walks THROUGH the Go functions that exist once per process and are installed in every runtime
+# (next, the ipairs iterator, package.searchers[1], the context's stopnow/killnow), and package.config / searchpath
+TB_VICTIM = [
+    'local ok, tb = xpcall(function() return next({}, "nokey") end, debug.traceback) emit("tb", ok, type(tb), tb:find("next", 1, true) ~= nil)',
+    'local n = 0 local t = setmetatable({}, {__index = function(_, i) if i < 3 then n = n + #debug.traceback() + (debug.getinfo(2) and 1 or 0) return i end end}) for i, v in ipairs(t) do end emit("tb2", n > 0)',
+    'local ok, e = xpcall(package.searchers[1], debug.traceback) local ok2, e2 = xpcall(function() runtime.context().stopnow(42) end, debug.traceback) emit("tb3", ok, type(e), ok2, type(e2))',
+    'emit("sp", package.config, select(2, package.searchpath("no.such.mod", "./?.lua;./?/init.lua")), (select(2, pcall(require, "no.such.mod2"))))',
+]
+CONFIG_ADVERSARY = [
+    'package.config = "\\\\\\n:\\n%\\n!\\n-\\n" package.searchpath("a.b", "./%.lua:./%/init.lua") pcall(require, "zz.yy")',
+    'package.config = "|\\n,\\n@\\n" pcall(package.searchpath, "q.r", "./@.lua") package.path = "./@.lua"',
+]
+VICTIM += META_VICTIM + STD_VICTIM + TB_VICTIM
 RNG_VICTIM = [
     'math.randomseed(5)',
     'emit("rng", math.random(1, 1000))',
@@ -122,7 +134,7 @@ ADVERSARY = [
     'collectgarbage("collect") collectgarbage("step")',
     'for i = 1, 300 do local _ = ("zz" .. i):find("z+%d") _ = ("q,r,s"):gsub("[^,]+", "%0%0") end',
 ]
-ADVERSARY += META_ADVERSARY + STD_ADVERSARY
+ADVERSARY += META_ADVERSARY + STD_ADVERSARY + CONFIG_ADVERSARY
 OPTIONS = ["cpu:1000000000", "cpu:3000", "regpool:20,regage:3", "cpu:60000,regpool:20", "mem:100000000", "cpu:1000000000,regpool:1,regage:1"]
 RNG_ADVERSARY = ['math.randomseed(7)', 'math.random()', 'math.random(10) math.random(10)', 'math.random(0, math.maxinteger) math.random(math.mininteger, math.maxinteger) math.random(0)']
 GC_ADVERSARY_STOP = 'collectgarbage("stop")'
@@ -271,12 +283,15 @@ def run(tier, seed):
     ck.log("harness built (plain + race)")
     npairs = 240 if tier == "quick" else 6000
     pairs = []
+    fresh_idx = []   # corpus pairs to be run ALSO in a fresh race-build process each, concurrent mode only
     cfile = os.path.join(vlib.VERIF, "corpus", "C20", "pairs.jsonl")
     if os.path.exists(cfile):
         for l in open(cfile):
             if l.strip():
                 c = json.loads(l)
                 pairs.append(("corpus", c["A"], c["B"], c["schedule"], c.get("opts")))
+                if c.get("fresh"):
+                    fresh_idx.append(len(pairs) - 1)
     ck.cov["corpus_pairs"] = len(pairs)
     for i in range(npairs):
         kind = "rng" if i % 10 == 3 else ("gc" if i % 50 == 7 else ("opt" if i % 6 == 5 else ("close" if i % 6 == 2 else "plain")))
@@ -391,6 +406,17 @@ def run(tier, seed):
                 return rc_all, o_all, se_all
             fut = rpool.submit(race_run)
             race_jobs.append((gmp, sub, fut))
+    # corpus pairs marked "fresh": one race-build process per pair and GOMAXPROCS, concurrent mode only, so that the two
+    # goroutines are the first users of lazily initialised shared state in that process
+    fresh_jobs = []
+    if gvh_race is not None and fresh_idx:
+        fpool = ThreadPoolExecutor(max_workers=4)
+        for i in fresh_idx:
+            for gmp in (("2", "4", "16") if tier == "quick" else ("2", "3", "4", "8", "16")):
+                for rep_no in range(1 if tier == "quick" else 4):
+                    fresh_jobs.append((i, gmp, fpool.submit(vlib.run_lines, gvh_race, ["conc"], [lines[i]], 600,
+                                                            {"GOMAXPROCS": gmp, "GORACE": "halt_on_error=0", "GVH_SCRATCH": os.path.join(ck.work, "std")})))
+    ck.cov["fresh_process_race_runs"] = len(fresh_jobs)
     # the harness process keeps the runtimes it created alive, so the sweep is fed in slices (3 processes at a time)
     step = 300
     slices = [lines[i:i + step] for i in range(0, len(lines), step)]
@@ -400,6 +426,7 @@ def run(tier, seed):
     evaluate(outs, "plain/GOMAXPROCS=4", alli)
     ck.log("plain build: %d pairs done" % len(outs))
     races = {}
+    race_stderrs = []
     if race_jobs:
         for gmp, sub, fut in race_jobs:
             rc, o, se = fut.result()
@@ -407,6 +434,19 @@ def run(tier, seed):
             if len(o) < len(sub):
                 ck.violation("race build of gvh-iso stopped after %d/%d pairs (GOMAXPROCS=%s)" % (len(o), len(sub), gmp),
                              {"kind": "crash", "stderr": se[-3000:], "pair": pairs[sub[min(len(o), len(sub) - 1)]]})
+            race_stderrs.append((gmp, se))
+            ck.log("race run GOMAXPROCS=%s done (%d pairs, rc %s)" % (gmp, len(o), rc))
+    for i, gmp, fut in fresh_jobs:
+        rc, o, se = fut.result()
+        ck.count("run:race-fresh-process/conc-only")
+        ck.log("fresh-process race run pair %d GOMAXPROCS=%s done (rc %s)" % (i, gmp, rc))
+        ck.case("fresh|%d|%s" % (i, gmp), nontrivial=True)
+        if not o or " CA:" not in o[0]:
+            ck.violation("race build of gvh-iso died on a fresh-process concurrent pair (GOMAXPROCS=%s)" % gmp,
+                         {"kind": "crash", "stderr": se[-3000:], "A": pairs[i][1], "B": pairs[i][2]})
+        race_stderrs.append((gmp, se))
+    if True:
+        for gmp, se in race_stderrs:
             for m in RACE_RE.finditer(se):
                 blk = m.group(1)
                 frames = re.findall(r"^\s+([A-Za-z0-9_./()*]+)\(\)\s*$", blk, re.M)
